@@ -120,7 +120,7 @@ def run(ck):
     exe = vlib.build_harness("c12_playbuffer", ["c12_playbuffer.c"])
     quick = ck.tier == "quick"
     nshards = 16
-    per = 16 if quick else 400
+    per = 40 if quick else 600
     maxhex = 24000 if quick else 60000
     mods = pick_modules(ck, 40 if quick else 250)
     # frame size must follow the tempo: modules that change tempo on almost every frame (listed several times
@@ -141,6 +141,8 @@ def run(ck):
             continue
         stats["skipped_modules"] += out.count("\nskip ")
         stats["reloads_after_invert_loop"] = stats.get("reloads_after_invert_loop", 0) + out.count("\nreload invloop")
+        stats["position_control_calls_between_buffer_calls"] = (stats.get("position_control_calls_between_buffer_calls", 0)
+                                                                + out.count("\nctl ") - out.count("\nctl skipped"))
         cases = parse_cases(out)
         if not cases:
             continue
@@ -170,7 +172,9 @@ def run(ck):
             ck.count(key, nontrivial=crossing > 0)
             ck.sample({"case": c["begin"], "ops": c["ops"][:12], "first_expect": [e[:60] for e in c["expect"][:3]]}, limit=4)
             # monitored hypothesis of C12_concat_seqstream: loop counts of the reference stream never decrease
-            if any(a > b for a, b in zip(c["lcs"], c["lcs"][1:])):
+            # (position-control calls in the script start a new segment: the counter may be reset there)
+            marks = {int(l.rsplit("at=", 1)[1]) for l in c["script"] if l.startswith("ctl ") and "at=" in l}
+            if any(a > b and (k + 1) not in marks for k, (a, b) in enumerate(zip(c["lcs"], c["lcs"][1:]))):
                 ck.violation("seqstream:loop-count-decreases", dict(replay_info(sh, c), loop_counts=c["lcs"][:200]),
                              "the loop counter of consecutive xmp_play_frame calls decreased without a position-control call")
             stats["frames_in_reference_streams"] = stats.get("frames_in_reference_streams", 0) + len(c["lcs"])
